@@ -734,31 +734,30 @@ func registerAtomics() {
 			return *mustPtr(a[0])
 		}
 		externals["sync/atomic.Store"+kind] = func(fr *frame, a []value) value {
-			*mustPtr(a[0]) = a[1]
 			fr.i.sched.schedPoint("atomic.Store")
+			*mustPtr(a[0]) = a[1]
 			return nil
 		}
 		externals["sync/atomic.Add"+kind] = func(fr *frame, a []value) value {
+			fr.i.sched.schedPoint("atomic.Add")
 			p := mustPtr(a[0])
 			*p = fr.i.binop(token.ADD, nil, *p, a[1])
-			r := *p
-			fr.i.sched.schedPoint("atomic.Add")
-			return r
+			return *p
 		}
 		externals["sync/atomic.Swap"+kind] = func(fr *frame, a []value) value {
+			fr.i.sched.schedPoint("atomic.Swap")
 			p := mustPtr(a[0])
 			old := *p
 			*p = a[1]
-			fr.i.sched.schedPoint("atomic.Swap")
 			return old
 		}
 		externals["sync/atomic.CompareAndSwap"+kind] = func(fr *frame, a []value) value {
+			fr.i.sched.schedPoint("atomic.CAS")
 			p := mustPtr(a[0])
 			ok := fr.i.truth(fr.i.eqv(nil, *p, a[1]))
 			if ok {
 				*p = a[2]
 			}
-			fr.i.sched.schedPoint("atomic.CAS")
 			return ok
 		}
 		externals["sync/atomic.And"+kind] = func(fr *frame, a []value) value {
@@ -790,8 +789,8 @@ func registerAtomics() {
 		return ptrLoad(fr, ptrField(a[0]))
 	}
 	externals["(*sync/atomic.Pointer[T]).Store"] = func(fr *frame, a []value) value {
-		*ptrField(a[0]) = a[1]
 		fr.i.sched.schedPoint("atomic.Pointer.Store")
+		*ptrField(a[0]) = a[1]
 		return nil
 	}
 	externals["(*sync/atomic.Pointer[T]).Swap"] = func(fr *frame, a []value) value {
